@@ -339,7 +339,7 @@ prop("C02", level="model_checking",
      text="The same product exploration decides, for every input of every length, that a match attempt stops exactly at the first symbol after which no pattern can match any extension (tags ERRSPAN, EARLY-STOP, OVERREAD).",
      note="Same trusted base as C01. The error VALUE (Default / error callback / pattern callback) is checked through the real derive (vderive c13).", design_ref="5 C02, 3", steps=[step_selfcheck, step_layer1, step_code, step_layer2(["u-dev"], ["u-dev", "u-rel", "f-dev", "f-rel"]), step_vderive("c13", ["tc-u-dev"], ["tc-u-dev", "sm-u-dev", "tc-f-rel"]), step_vderive("sweep", ["tc-u-rel", "sm-u-dev", "tc-f-dev"], ["tc-u-rel", "sm-u-rel", "tc-f-rel", "sm-f-rel", "tc-u-dev", "sm-u-dev"])], assumptions=L1_ASSUME + CODE_ASSUME)
 prop("C03", level="model_checking",
-     technique="structural invariants on every captured Graph + nullable-pattern rejection over the enumerated family",
+     technique="structural invariants on every captured Graph + nullable-pattern rejection over the enumerated family; tiling of compiled and interpreted lexers on model traces; full-alphabet sweep (every input of <= 3 bytes, every scalar value) through universal lexers",
      text="Every captured graph is checked for the invariants that make any walk terminate and tile (root records nothing, EOI edges lead to terminal late-accept states, every edge consumes one byte), and every enumerated definition with a pattern that can match the empty string (decided on the reference automaton) must be rejected.",
      note="Same trusted base as C01.", design_ref="5 C03", steps=[step_selfcheck, step_layer1, step_code, step_layer2(["u-dev"], ["u-dev", "u-rel", "f-dev", "f-rel"]), step_vderive("sweep", ["tc-u-rel", "sm-u-dev", "tc-f-dev"], ["tc-u-rel", "sm-u-rel", "tc-f-rel", "sm-f-rel", "tc-u-dev", "sm-u-dev"])], assumptions=L1_ASSUME + CODE_ASSUME)
 prop("C07", level="model_checking",
@@ -369,11 +369,11 @@ prop("C16", level="model_checking", engine="vgraph",
      note="Trusted: the seam list covers every hash-container-to-sequence conversion in logos-codegen (grep-audited, DESIGN.md 2.2); a future iteration site without a seam is only covered by the seed sample.", design_ref="5 C16", steps=[step_vgraph("c16"), step_cli16],
      assumptions=["seams sit at every place where a hash container is turned into a sequence (audited by grep)", "permutation sets for long lists are reduced as stated in bounds"])
 prop("C18", level="exploration", engine="vgraph",
-     technique="exhaustive enumeration of all permutations of named arguments / #[logos] items; real generate() output compared with the canonical order",
+     technique="exhaustive enumeration of all permutations of named arguments / #[logos] items, and of every ACCEPTED attribute token sequence up to length 4/5 found by exhaustive token-sequence exploration; real generate() output compared with the canonical order",
      text="All permutations of every subset of named arguments for #[token], #[regex], skip(...), and all dependency-respecting permutations of up to 5 items of a combined #[logos(...)] attribute produce the same token stream as the canonical order.",
      note="Equality of generate()'s token string is stronger than lexer equivalence; at most one skip per combined attribute (two skips renumber leaves).", design_ref="5 C18", steps=[step_vgraph("c18"), step_vgraph("c19seq")], assumptions=[])
 prop("C19", level="exploration", engine="vgraph",
-     technique="exhaustive enumeration of an attribute grammar (all single items and all pairs) through catch_unwind(generate) and (single items + same-key pairs) through rustc with the real proc-macro; must-reject predicates from the reference",
+     technique="exhaustive enumeration of an attribute grammar (all single items and all pairs) and of ALL attribute token sequences up to length 4/5 through catch_unwind(generate), and (single items + same-key pairs, enum names colliding with generated items) through rustc with the real proc-macro; must-reject predicates from the reference",
      text="Every single item and every pair of items of the attribute grammar is run through the library entry point: no panic, and every definition carrying a must-reject predicate (nullable, start look-behind, unsupported feature, greedy dot anywhere, undefined subpattern, bad variant shape) yields compile_error!.",
      note="Two execution paths: the library entry point under catch_unwind, and rustc on the stable toolchain with the real proc-macro (span operations differ there).", design_ref="5 C19", steps=[step_vgraph("c19"), step_vgraph("c19seq"), step_vgraph("c13cb"), step_vgraph("c19big"), step_layer1, step_probe, step_names], assumptions=["the derive cannot type-check user-supplied fragments; rustc errors inside those are not counted"])
 
